@@ -81,6 +81,7 @@ class Interp:
         self.policy = policy or DefaultPolicy()
         self.contracts = {}      # qualname -> fn(interp, func, args, kwargs)
         self.call_depth = 0
+        self.try_stack = []          # exception names caught by the enclosing try statements (innermost last)
         self.max_depth = 40
         self.trace_calls = None
         from . import lib
@@ -109,6 +110,9 @@ class Interp:
         if z3.is_true(cond):
             raise PyExc(exc_name, msg, site=site, kind=kind)
         mode = self.policy.raise_site(self, kind, cond, exc_name, node)
+        if mode == 'assume' and any(exc_matches(exc_name, n) for names in self.try_stack for n in names):
+            # the code handles this exception itself: the case is part of its behaviour, not a premise to assume away
+            mode = 'fork'
         ctx = self.ctx
         if mode == 'assume':
             ctx.assume(z3.Not(cond), name='in-domain@%s:%s' % site)
@@ -306,8 +310,20 @@ class Interp:
     def st_Try(self, s, fr):
         if s.finalbody:
             raise Unsupported('try/finally')
+        caught = []
+        for h in s.handlers:
+            if h.type is None:
+                caught.append('BaseException')
+            elif isinstance(h.type, ast.Tuple):
+                caught += [_exc_name(x) for x in h.type.elts]
+            else:
+                caught.append(_exc_name(h.type))
+        self.try_stack.append(caught)
         try:
-            self.exec_block(s.body, fr)
+            try:
+                self.exec_block(s.body, fr)
+            finally:
+                self.try_stack.pop()
         except PyExc as e:
             for h in s.handlers:
                 names = []
